@@ -186,3 +186,15 @@ Qed.
 End Harness.
 
 End Proofs.
+
+(* the facts about the generated selection formulas that the semantic theorems use: conclusions of state_complete *)
+Lemma carried_in_of_state_complete (c : ctx) x : In x (modified c) -> In x (live_in c) -> In x (state c).
+Proof. intros HM HL. exact (proj1 (proj2 (state_complete_lemma c x HM)) HL). Qed.
+
+Lemma outputs_of_state_complete (c : ctx) x :
+  In x (modified c) -> In x (live_out c) -> In x (firstn (nouts c) (state c)).
+Proof.
+  intros HM HL. destruct (proj1 (state_complete_lemma c x HM) HL) as [i [Hi Hlt]].
+  eapply index_of_firstn; eassumption.
+Qed.
+
